@@ -381,6 +381,47 @@ def plan_C18(run):
     run.validate(tr, "TraceAux", max_events=1500, parallel=6)
 
 
-PLANS = {"C13": plan_C13, "C15": plan_C15, "C16": plan_C16, "C17": plan_C17, "C18": plan_C18,
+def plan_C19(run):
+    """both big-integer back ends: identical scenario sets with identical injected randomness, compared by TLC"""
+    r = run.model("clientgroups", "MCClientGroups", "MCClientGroups_%s.cfg" % ("t" if run.thorough else "q"), workers=2)
+    cg = run.scen_file("clientgroups", r.replay if run.thorough else r.replay[::3])
+    corpus = CORPUS if os.path.exists(CORPUS) else None
+    sets = [("auth", corpus, 3000 if run.thorough else 200), ("tamper", None, 6 if run.thorough else 1), ("pubkey", None, None),
+            ("adversary", None, None), ("interleave", None, None), ("clientgroups", cg, None), ("degenerate", None, None)]
+    run.assumptions.append("srp-fast-math is rug linked against the system GMP 6.2.1 through tools/gmpshim (bundled GMP 6.3.0 cannot be built offline: no m4)")
+    for mode, scen, n in sets:
+        a = run.harness(mode, scen=scen, n=n, extra=["det"], tag="pair-" + mode)
+        b = run.harness(mode, scen=scen, n=n, extra=["det"], fast=True, tag="pair-" + mode)
+        res = vlib.run_tlc("%s-%s-pair-%s" % (run.pid, run.tier, mode), "TracePair", workers=1, env={"TRACE": a, "TRACE2": b}, xmx="3g -Xmn32m", timeout=3000)
+        run.states += res.distinct
+        run.transitions += res.generated
+        if res.stuck or not res.stats:
+            raise ToolError("TracePair did not consume %s:\n%s" % (a, res.out[-2000:]))
+        for k, v in res.stats.items():
+            run.stats["pair." + k] = run.stats.get("pair." + k, 0) + v
+        run.events += res.stats.get("events", 0)
+        lines = None
+        for (line, ev, tags) in res.viol:
+            if lines is None:
+                lines = open(a).read().splitlines()
+                lines_b = open(b).read().splitlines()
+            own = [t for t in tags if t.startswith("C19.")]
+            ea = json.loads(lines[line - 1])
+            eb = json.loads(lines_b[line - 1]) if line - 1 < len(lines_b) else None
+            k = run.match_known(ea, own)
+            if k is not None:
+                run.known_hits.append((k, a, line))
+                continue
+            path = os.path.join(OUT, "replays", "%s-%s-%d.json" % (run.pid, run.tier, len(run.violations)))
+            json.dump({"property": "C19", "tags": own, "mode": mode, "line": line, "default_math_event": ea, "fast_math_event": eb,
+                       "reproduce": "wsh %s --seed %d --tier %s det  (both builds), then TracePair" % (mode, run.seed, run.tier)}, open(path, "w"))
+            run.violations.append({"kind": "pair", "tags": own, "ev": ev, "line": line, "replay": path})
+        log("pair %-14s %7d events compared, %d differing" % (mode, res.stats.get("events", 0), len(res.viol)))
+        # the spec as the single oracle: the fast build's trace validated like any other (its tags are reported as notes)
+        if run.thorough or sum(1 for _ in open(b)) < 8000:
+            run.validate(b, "TraceAuth")
+
+
+PLANS = {"C19": plan_C19, "C13": plan_C13, "C15": plan_C15, "C16": plan_C16, "C17": plan_C17, "C18": plan_C18,
          "C06": plan_C06, "C07": plan_C07, "C08": plan_C08, "C09": plan_C09, "C10": plan_C10, "C11": plan_C11, "C12": plan_C12,
          "C01": plan_C01, "C02": plan_C02, "C03": plan_C03, "C04": plan_C04, "C05": plan_C05, "C14": plan_C14}
